@@ -497,6 +497,115 @@ def linsolve_class_change_history(r, tier, seed):
                         finding='C07-linsolve-stale-class')
 
 
+DECSET_HELP = ("def decouple(A, idx, val):\n    A=A.copy()\n    for i in idx:\n        A[i,:]=0; A[:,i]=0; A[i,i]=val\n    return A\n"
+               "def full_csr(A):\n    n=A.shape[0]\n    return sps.csr_matrix((A.ravel().copy(), np.tile(np.arange(n),n), np.arange(0,n*n+1,n)), shape=(n,n))\n")
+
+
+def full_csr(A):
+    """csr matrix in which every entry (also the zeros of decoupled rows / columns) is stored: the pattern never changes"""
+    n = A.shape[0]
+    return sps.csr_matrix((A.ravel().copy(), np.tile(np.arange(n), n), np.arange(0, n * n + 1, n)), shape=(n, n))
+
+
+def decset_steps(n, posdef, order):
+    """(base matrix index, decoupled set, diagonal value, index of the right-hand side) per response; the size never changes.  Consecutive
+    steps couple dofs again that were decoupled, decouple others, go to a disjoint set, to all-but-one, to a diagonal matrix and back to a
+    fully coupled one; the rhs index repeats where the right-hand side stays the same object"""
+    h = n // 2
+    neg = 2.5 if posdef else -3.0
+    steps = [(0, sorted({0, h}), 1.0, 0), (0, [0], 1.0, 0), (0, [], 1.0, 0), (0, sorted({1 % n, n - 1}), 2.5, 1), (1, sorted({0, h}), 1.0, 1),
+             (1, list(range(1, n)), neg, 2), (1, [h], 1.0, 2), (1, list(range(n)), 2.5, 3), (1, [], 1.0, 3), (0, [n - 1], 1.0, 3), (0, [n - 1], 1.0, 4)]
+    if order == 'coupled first':      # the mirror history: starts fully coupled, dofs get decoupled later (never starts with a diagonal matrix)
+        steps = [(b, s, v, i // 2) for i, (b, s, v, _) in enumerate(reversed(steps))]
+    return steps
+
+
+def decset_replay(kind, cname, lda, bases, steps, bs, tol):
+    upd = {'dense': "sA.state=M", 'dense_inplace': "sA.state[...]=M", 'csc': "sA.state=sps.csc_matrix(M)", 'csr_full_inplace': "sA.state.data[...]=full_csr(M).data"}[cname]
+    first = {'dense': "M0", 'dense_inplace': "M0.copy()", 'csc': "sps.csc_matrix(M0)", 'csr_full_inplace': "full_csr(M0)"}[cname]
+    return (HEAD + HELP + DECSET_HELP + f"bases=[{', '.join(lit(a) for a in bases)}]\nbs=[{', '.join(lit(b) for b in bs)}]\nsteps={steps!r}\n"
+            f"M0=decouple(bases[steps[0][0]], steps[0][1], steps[0][2])\nsA=pym.Signal('A',{first}); sb=pym.Signal('b',bs[0])\nm=pym.LinSolve([sA,sb])\n"
+            + ("" if lda else "m.use_lda_solver=False\n") +
+            f"last=None\nfor i,(k,idx,val,ib) in enumerate(steps):\n    M=decouple(bases[k],idx,val)\n    if i: {upd}\n    if ib!=last: sb.state=bs[ib].copy()\n    last=ib\n"
+            f"    m.response(); x=m.sig_out[0].state; xr=np.linalg.solve(M,bs[ib])\n"
+            f"    assert x.shape==xr.shape and np.all(np.isfinite(x)) and mx(x-xr)<={tol}*max(1,mx(xr)), ('step',i,'decoupled',idx,'x differs from numpy.linalg.solve of the CURRENT matrix',mx(x-xr))\n"
+            f"    assert mx(M@x-bs[ib])<={tol}*(mx(M)*M.shape[0]*mx(x)+mx(bs[ib])), ('step',i,'residual')\n"
+            f"    assert np.array_equal(dense(sA.state),M) and np.array_equal(sb.state,bs[ib]), 'operand modified'\n")
+
+
+@bound('ONE LinSolve object, the SET of dofs decoupled in row and column (identity-like rows, diagonal value 1 / 2.5 / -3) changes between responses while the size stays the same: '
+       '{0,n/2} -> {0} -> {} -> {1,n-1} -> {0,n/2} (new values) -> all but dof 0 -> {n/2} -> all (diagonal matrix) -> {} -> {n-1} -> {n-1}, and the mirror order starting fully coupled; '
+       'the right-hand side object is replaced (5-6 different ones) or stays the same between responses; classes {SPD, general, symmetric indefinite, complex symmetric, Hermitian PD} x '
+       'n in {5,8} [quick] / {3,5,8,13} [thorough] x {ndarray new object, ndarray updated in place, csc (pattern changes), csr with every entry stored updated in place through .data} x '
+       'rhs {vector, (n,2) block, (n,3) block with a zero column and a column supported on the decoupled dofs only} x LDAS on/off; every response against numpy.linalg.solve of the CURRENT matrix (1e-9), '
+       'residual, dtype, operands unmodified')
+@lazy
+def linsolve_decoupled_set_history(r, tier, seed):
+    ns = sizes(tier, (5, 8), (3, 5, 8, 13))
+    for n in ns:
+        for ik, kind in enumerate(('spd', 'gen', 'sym_indef', 'csym', 'herm_pd')):
+            rng = np.random.default_rng(seed + 61 * n + ik)
+            bases = [gen_matrix(kind, n, rng), gen_matrix(kind, n, rng)]
+            cpl = np.iscomplexobj(bases[0])
+            for order in ('decoupled first', 'coupled first'):
+                steps = decset_steps(n, kind in POSDEF, order)
+                for rk in ('vec', 'blk2', 'blk3'):
+                    if tier == 'quick' and rk == 'blk3' and order == 'coupled first':
+                        continue
+                    bs = []
+                    for j in range(6):
+                        shape = {'vec': (n,), 'blk2': (n, 2), 'blk3': (n, 3)}[rk]
+                        b = rng.uniform(-1, 1, shape) + 0.1
+                        if cpl:
+                            b = b + 1j * rng.uniform(-1, 1, shape)
+                        if rk == 'blk3':
+                            b[:, 1] = 0                     # a zero column
+                            sup = [s[1] for s in steps if s[3] == j and s[1]]
+                            keep = sup[0] if sup else [0]   # a column that only loads dofs decoupled at the first step that uses this rhs
+                            col = np.zeros(n, dtype=b.dtype)
+                            col[keep] = b[keep, 2]
+                            b[:, 2] = col
+                        bs.append(b)
+                    for cname in ('dense', 'dense_inplace', 'csc', 'csr_full_inplace'):
+                        for lda in (True, False):
+                            if tier == 'quick' and not lda and (rk == 'blk3' or cname == 'dense_inplace'):
+                                continue
+                            key0 = (kind, n, order, rk, cname, lda)
+                            def replay(kind=kind, cname=cname, lda=lda, bases=bases, steps=steps, bs=bs):
+                                return decset_replay(kind, cname, lda, bases, steps, bs, TOL)
+                            i = -1
+                            try:
+                                M = decouple(bases[steps[0][0]], steps[0][1], steps[0][2], 'both')
+                                sA = pym.Signal('A', {'dense': M, 'dense_inplace': M.copy(), 'csc': sps.csc_matrix(M), 'csr_full_inplace': full_csr(M)}[cname])
+                                sb = pym.Signal('b', bs[0])
+                                m = pym.LinSolve([sA, sb])
+                                if not lda:
+                                    m.use_lda_solver = False
+                                last = None
+                                for i, (k, idx, val, ib) in enumerate(steps):
+                                    M = decouple(bases[k], idx, val, 'both')
+                                    if i:
+                                        if cname == 'dense':
+                                            sA.state = M
+                                        elif cname == 'dense_inplace':
+                                            sA.state[...] = M
+                                        elif cname == 'csc':
+                                            sA.state = sps.csc_matrix(M)
+                                        else:
+                                            sA.state.data[...] = full_csr(M).data
+                                    if ib != last:
+                                        sb.state = bs[ib].copy()
+                                    last = ib
+                                    m.response()
+                                    key = key0 + (i,)
+                                    r.case(key)
+                                    what = f'LinSolve history [decoupled set -> {idx}, rhs {"replaced" if i and steps[i - 1][3] != ib else "unchanged"}, call {i}]'
+                                    verify_x(r, what, key, M, bs[ib], m.sig_out[0].state, replay)
+                                    r.check(same_values(sA.state, M) and np.array_equal(sb.state, bs[ib]), f'{what}: matrix and right-hand side operands are not modified', key, replay_code=replay)
+                            except Exception as e:
+                                r.check(False, f'LinSolve history [changing decoupled set]: response() raised at call {i}', key0 + (i,), f'{type(e).__name__}: {str(e)[:160]}', 'a solution', replay_code=replay)
+
+
 # ------------------------------------------------------------------------------------------------------------------- Inverse
 @bound('Inverse: all 18 classes as ndarray (C order, F order, strided view), n in {1,2,3,5,8} [quick] / {1..6,8,13,21} [thorough]; A B = I, B A = I, reference '
        'np.linalg.solve(A, I), dtype, operand unchanged; histories on one object (new matrix, caller overwrites B, repeat)')
@@ -933,6 +1042,7 @@ def static_condensation_cg(r, tier, seed):
 CHECKS = [('linsolve_classes', linsolve_classes), ('linsolve_decoupled', linsolve_decoupled), ('linsolve_overrides', linsolve_overrides),
           ('linsolve_cg_block', linsolve_cg_block), ('linsolve_cg_zero_rhs', linsolve_cg_zero_rhs), ('linsolve_typeerror', linsolve_typeerror), ('linsolve_histories', linsolve_histories),
           ('linsolve_rhs_width_history', linsolve_rhs_width_history), ('linsolve_class_change_history', linsolve_class_change_history),
+          ('linsolve_decoupled_set_history', linsolve_decoupled_set_history),
           ('inverse', inverse),
           ('soe_partitions', soe_partitions), ('soe_histories', soe_histories), ('soe_nonsymmetric', soe_nonsymmetric), ('soe_second_call', soe_second_call),
           ('static_condensation', static_condensation), ('static_condensation_histories', static_condensation_histories),
